@@ -122,18 +122,74 @@ func (v *violations) add(x hc.Violation) {
 	v.c.Violate(x)
 }
 
-// bufferedCases collects cases and emits them in exactly `shards` shards (one per core).
+// bufferedCases collects cases and emits them in shards.  In the thorough tier the shared case writer keeps only a
+// capped prefix per case kind, so the cases are put in a seeded random order first (priority cases -- the unmutated
+// documents / unperturbed sets -- stay in front).
 type bufferedCases struct {
 	terms []string
 	descs []any
+	prio  []bool
 }
 
 func (b *bufferedCases) add(term string, desc any) {
 	b.terms = append(b.terms, term)
 	b.descs = append(b.descs, desc)
+	b.prio = append(b.prio, false)
+}
+
+func (b *bufferedCases) addFirst(term string, desc any) {
+	b.add(term, desc)
+	b.prio[len(b.prio)-1] = true
+}
+
+func (b *bufferedCases) reorder(c *hc.Ctx) {
+	var first, rest []int
+	for i := range b.terms {
+		if b.prio[i] {
+			first = append(first, i)
+		} else {
+			rest = append(rest, i)
+		}
+	}
+	c.Rng.Shuffle(len(rest), func(i, j int) { rest[i], rest[j] = rest[j], rest[i] })
+	order := append(first, rest...)
+	terms := make([]string, len(order))
+	descs := make([]any, len(order))
+	for k, i := range order {
+		terms[k], descs[k] = b.terms[i], b.descs[i]
+	}
+	b.terms, b.descs = terms, descs
 }
 
 func (b *bufferedCases) flush(c *hc.Ctx, importPath, file string, shards int) {
+	// one shard per core, but never more than ~450 kB of Coq text per shard (coqc needs ~2 MB of memory per kB of
+	// case text; shards are evaluated 16 at a time)
+	if !c.Quick() {
+		b.reorder(c)
+		// the shared writer keeps at most 8000 cases per case kind in the thorough tier
+		kept := map[string]int{}
+		var terms []string
+		var descs []any
+		for i, t := range b.terms {
+			kind := t
+			if j := strings.IndexAny(t, " ("); j > 0 {
+				kind = t[:j]
+			}
+			kept[kind]++
+			if kept[kind] <= 8000 {
+				terms = append(terms, t)
+				descs = append(descs, b.descs[i])
+			}
+		}
+		b.terms, b.descs = terms, descs
+	}
+	total := 0
+	for _, t := range b.terms {
+		total += len(t)
+	}
+	if n := (total + 449999) / 450000; n > shards {
+		shards = n
+	}
 	per := (len(b.terms) + shards - 1) / shards
 	if per < 1 {
 		per = 1
